@@ -56,21 +56,26 @@ theorem mkSpec_ok (kind : String) (n isz ial : Nat) (part fast reloc : Bool) (fu
     · exact Nat.div_le_of_le_mul (by rw [Nat.mul_comm den X]; exact Nat.mul_le_mul_left X h)
   have hite : ∀ (c : Prop) [Decidable c], (if c then 0 else n) ≤ n := by
     intro c _; split <;> omega
+  have hmonoB : ∀ sp : Spec, sp.cap = .base → ∀ L, capacityOf sp L < capacityOf sp (L + 1) :=
+    fun sp h => capacityOf_mono sp (fun _ _ h' => by rw [h] at h'; cases h')
+  have hmonoR : ∀ (sp : Spec) (num den : Nat), sp.cap = .ratio num den → 0 < den → den ≤ 2 * (sp.maxCount * num) →
+      ∀ L, capacityOf sp L < capacityOf sp (L + 1) :=
+    fun sp num den h h1 h2 => capacityOf_mono sp (fun _ _ h' => by rw [h] at h'; cases h'; exact ⟨h1, h2⟩)
   unfold Driver.HashTable.mkSpec
   simp only
   split
   · -- LimP4
-    refine ⟨hn, fun _ => ?_, (fun h => by cases h), fun _ L => hbase L n hn⟩
+    refine ⟨hn, fun _ => ?_, (fun h => by cases h), fun _ L => hbase L n hn, hmonoB _ rfl⟩
     exact hite _
-  · exact ⟨hn, fun _ => hff, (fun h => by cases h), fun _ L => hbase L n hn⟩
-  · exact ⟨hn, fun _ => hff, (fun h => by cases h), fun _ L => hbase L n hn⟩
-  · exact ⟨hn, fun _ => hff, (fun h => by cases h), fun _ L => hbase L n hn⟩
-  · exact ⟨(by simp), (fun h => by cases h), fun _ => rfl, (fun h => by cases h)⟩
-  · exact ⟨(by simp), fun _ => Nat.le_refl _, (fun h => by cases h), fun _ L => hbase L 1 (by decide)⟩
-  · exact ⟨hn, fun _ => Nat.zero_le _, (fun h => by cases h), fun _ L => hratio L n 11 12 (by decide)⟩
-  · exact ⟨hn, fun _ => Nat.zero_le _, (fun h => by cases h), fun _ L => hratio L n 5 6 (by decide)⟩
-  · exact ⟨(by simp), fun _ => Nat.zero_le _, (fun h => by cases h), fun _ L => hratio L 7 13 14 (by decide)⟩
-  · exact ⟨hn, fun _ => Nat.le_refl _, (fun h => by cases h), fun _ L => hbase L n hn⟩
+  · exact ⟨hn, fun _ => hff, (fun h => by cases h), fun _ L => hbase L n hn, hmonoB _ rfl⟩
+  · exact ⟨hn, fun _ => hff, (fun h => by cases h), fun _ L => hbase L n hn, hmonoB _ rfl⟩
+  · exact ⟨hn, fun _ => hff, (fun h => by cases h), fun _ L => hbase L n hn, hmonoB _ rfl⟩
+  · exact ⟨(by simp), (fun h => by cases h), fun _ => rfl, (fun h => by cases h), hmonoB _ rfl⟩
+  · exact ⟨(by simp), fun _ => Nat.le_refl _, (fun h => by cases h), fun _ L => hbase L 1 (by decide), hmonoB _ rfl⟩
+  · exact ⟨hn, fun _ => Nat.zero_le _, (fun h => by cases h), fun _ L => hratio L n 11 12 (by decide), hmonoR _ 11 12 rfl (by decide) (by simp only; omega)⟩
+  · exact ⟨hn, fun _ => Nat.zero_le _, (fun h => by cases h), fun _ L => hratio L n 5 6 (by decide), hmonoR _ 5 6 rfl (by decide) (by simp only; omega)⟩
+  · exact ⟨(by simp), fun _ => Nat.zero_le _, (fun h => by cases h), fun _ L => hratio L 7 13 14 (by decide), hmonoR _ 13 14 rfl (by decide) (by show 14 ≤ 2 * (7 * 13); decide)⟩
+  · exact ⟨hn, fun _ => Nat.le_refl _, (fun h => by cases h), fun _ L => hbase L n hn, hmonoB _ rfl⟩
 
 /-- UnlimP has no `maxCount` template argument (the harness passes `n = 0`) -/
 theorem mkSpec_ok_unlimP (n isz ial : Nat) (part fast reloc : Bool) (fullFrom logStart : Nat) :
@@ -78,7 +83,8 @@ theorem mkSpec_ok_unlimP (n isz ial : Nat) (part fast reloc : Bool) (fullFrom lo
   by
   unfold Driver.HashTable.mkSpec
   simp only []
-  exact ⟨(by simp), (fun h => by cases h), fun _ => rfl, (fun h => by cases h)⟩
+  exact ⟨(by simp), (fun h => by cases h), fun _ => rfl, (fun h => by cases h),
+    capacityOf_mono _ (fun _ _ h => by cases h)⟩
 
 /-! ## Single operations (each for every `Faults` value) -/
 
